@@ -267,3 +267,17 @@ add(Contract('engine.YP.load_script_from_string', 'fn',
                  '(forall ((x String)) (! (= (select {ectx} x) (ite (select {P} x) ' + _MERGED + ' (select {ectx0} x))) :pattern ((select {ectx} x))))',
                  '(forall ((x String)) (! (=> (select {P} x) (>= (select {new_context} x) 0)) :pattern ((select {P} x))))',
              ])}))
+
+# ---- the two iterator classes of the unification family: they implement the semidet handle protocol ----------------
+# YPSuccess: exactly one answer (the constant False), binding nothing (store untouched: footprint empty), then StopIteration
+add(Contract('engine.YPSuccess.__init__', 'fn', [('self', 'SObj')], ret='None', modifies=['sdone'],
+             ensures=['(= {sdone} (store {sdone0} {self} false))', '(= {store} {store0})']))
+add(Contract('engine.YPSuccess.__next__', 'fn', [('self', 'SObj')], ret='Bool', modifies=['sdone'],
+             raises={'StopIteration': '(select {sdone0} {self})'},
+             ensures=['(not (select {sdone0} {self}))', '(= {result} false)', '(= {sdone} (store {sdone0} {self} true))', '(= {store} {store0})'],
+             ghost={'exc_ensures': ['(= {store} {store0})', '(= {sdone} {sdone0})']}))
+add(Contract('engine.YPSuccess.close', 'fn', [('self', 'SObj')], ret='None', ensures=['(= {store} {store0})']))
+# YPFail: no answer, binding nothing
+add(Contract('engine.YPFail.__next__', 'fn', [('self', 'SObj')], ret='Bool',
+             raises={'StopIteration': 'true'}, ensures=['false'], ghost={'exc_ensures': ['(= {store} {store0})']}))
+add(Contract('engine.YPFail.close', 'fn', [('self', 'SObj')], ret='None', ensures=['(= {store} {store0})']))
